@@ -392,6 +392,30 @@ def run(ctx):
         from ..rules import arrayext
         na = arrayext.check_array_extents(ck, prog, config, 'C03-j', scope='all')
         ck.min_instances('(call, fixed-size array) sites', na, 6)
+        # ---- l  copies and stores into blocks allocated in the file parsers stay inside the allocation (the rule of
+        #         C17-b over the functions that parse a file)
+        from .c17 import AllocRule as _AR
+        nl = 0
+        for name_ in ('read_preface', 'index_read', 'read_lead', 'read_header_from_file', 'import_dict', 'comp_add_to_dc',
+                      'comp_add_to_data', 'get_digest_string'):
+            fl_ = [f_ for f_ in prog.lib_funcs() if f_.name == name_]
+            if len(fl_) != 1:
+                continue
+            a_ = _AR(prog, fl_[0])
+            a_.use_facts = name_ in ('get_digest_string',)
+            run_rule(prog, fl_[0], a_)
+            nl += a_.checked
+            by_ = {}
+            for v_ in a_.violations:
+                by_.setdefault(v_.inst, v_)
+            if not by_:
+                ck.ob('C03-l', 'R4.alloc-copy', name_, 'copies', True,
+                      '%d copy/store state(s) into same-function allocations, all within the allocated size' % a_.checked,
+                      fl_[0].file, fl_[0].line, config=config, trivial=a_.checked == 0)
+            for inst_, v_ in sorted(by_.items()):
+                ck.ob('C03-l', 'R4.alloc-copy', name_, inst_, False, v_.msg, v_.node.file, v_.node.line, path=v_.path,
+                      config=config)
+        ck.min_instances('copies into same-function allocations of the file parsers', nl, 4)
         # ---- k  a failed zrealloc() through a temporary never leaves the field dangling
         from ..rules import extra as _x3k
         _x3k.check_realloc_keep(ck, prog, config, 'C03-k')
